@@ -287,14 +287,15 @@ defaxiom lremDef: (forall a int, j int, n int {lrem(a, j, n)} :: j >= n ==> lrem
 
 macro segs(r) = r.segments.values
 // segsOK: every line lies inside the source, is non-empty, lines are in increasing order
-macro segsOK(r) = (forall k int :: 0 <= k && k < len(segs(r)) ==> (validSeg(segs(r)[k], len(r.source)) && segs(r)[k].Start < segs(r)[k].Stop)) &&
+// (the lines handed to a block reader never force a newline: only code/HTML blocks do, and those are not inline-parsed)
+macro segsOK(r) = (forall k int :: 0 <= k && k < len(segs(r)) ==> (validSeg(segs(r)[k], len(r.source)) && segs(r)[k].Start < segs(r)[k].Stop && !segs(r)[k].ForceNewline)) &&
   (forall k int :: 0 <= k && k < len(segs(r)) - 1 ==> segs(r)[k].Stop <= segs(r)[k+1].Start) &&
   (forall k int :: 0 <= k && k < len(segs(r)) - 1 ==> segs(r)[k].Stop < segs(r)[len(segs(r))-1].Stop)
 macro brBase(r) = r.segments != nil && r.segmentsLength == len(segs(r)) && segsOK(r) &&
   (r.segmentsLength > 0 ==> r.last == segs(r)[r.segmentsLength-1].Stop)
 macro brInv(r) = brBase(r) && r.line >= 0 &&
   (r.line < r.segmentsLength ==> (segs(r)[r.line].Start <= r.pos.Start && r.pos.Start <= r.pos.Stop && r.pos.Stop == segs(r)[r.line].Stop &&
-     r.pos.Padding >= 0 && r.head == segs(r)[r.line].Start && (r.pos.Stop < r.last ==> r.pos.Start < r.pos.Stop)))
+     r.pos.Padding >= 0 && !r.pos.ForceNewline && r.head == segs(r)[r.line].Start && (r.pos.Stop < r.last ==> r.pos.Start < r.pos.Stop)))
 macro remB(r) = (r.line < r.segmentsLength ? r.pos.Padding + r.pos.Stop - r.pos.Start +
      lrem(arrof(segs(r)), offof(segs(r)) + r.line + 1, offof(segs(r)) + r.segmentsLength) : 0)
 
@@ -321,7 +322,7 @@ func (*blockReader).SetPosition
   refines text.Reader.SetPosition via rdB
   uses lremDef
   requires brBase(r) && line >= 0
-  requires (pos.Start != -1 && line < r.segmentsLength) ==> (segs(r)[line].Start <= pos.Start && pos.Start <= pos.Stop && pos.Stop == segs(r)[line].Stop && pos.Padding >= 0 && (pos.Stop < r.last ==> pos.Start < pos.Stop))
+  requires (pos.Start != -1 && line < r.segmentsLength) ==> (segs(r)[line].Start <= pos.Start && pos.Start <= pos.Stop && pos.Stop == segs(r)[line].Stop && pos.Padding >= 0 && !pos.ForceNewline && (pos.Stop < r.last ==> pos.Start < pos.Stop))
   ensures brInv(r) && r.line == line && r.lineOffset == -1
   ensures (pos.Start != -1 && line < r.segmentsLength) ==> sameSeg(r.pos, pos)
   ensures (pos.Start == -1 && line < r.segmentsLength) ==> sameSeg(r.pos, segs(r)[line])
@@ -407,7 +408,7 @@ ghost var rdRem(r addr) int           // number of view bytes from the cursor to
 ghost var rdPosOK(r addr, line int, start int, stop int, pad int, force bool) bool   // a position Position() may have returned
 macro rdLen(r) = rdPad(r) + rdStop(r) - rdStart(r)
 macro srcByte(r, k) = membyte(srcArrOf(r), srcOffOf(r) + (k))
-macro rdShape(r) = rdLive(r) ==> (0 <= rdStart(r) && rdStart(r) < rdStop(r) && rdStop(r) <= srcLenOf(r) && rdPad(r) >= 0 && rdRem(r) >= rdLen(r) && rdLine(r) >= 0)
+macro rdShape(r) = rdRem(r) >= 0 && (rdLive(r) ==> (0 <= rdStart(r) && rdStart(r) < rdStop(r) && rdStop(r) <= srcLenOf(r) && rdPad(r) >= 0 && rdRem(r) >= rdLen(r) && rdLine(r) >= 0))
 macro rdOK(r) = rdRep(r) && rdShape(r)
 macro rdSeg(s, r) = s.Start == rdStart(r) && s.Stop == rdStop(r) && s.Padding == rdPad(r)
 macro rdSame(r) = rdLive(r) == old(rdLive(r)) && rdLine(r) == old(rdLine(r)) && rdStart(r) == old(rdStart(r)) && rdStop(r) == old(rdStop(r)) && rdPad(r) == old(rdPad(r)) && rdRem(r) == old(rdRem(r))
@@ -421,8 +422,7 @@ iface text.Reader.PeekLine
   ensures rdOK(recv)
   ensures rdSeg(result1, recv)
   ensures (result0 != nil) <==> rdLive(recv)
-  ensures rdLive(recv) ==> (rdLen(recv) <= len(result0) && len(result0) <= rdLen(recv) + 1)
-  ensures (rdLive(recv) && plainReader(recv)) ==> (len(result0) == rdLen(recv) && !result1.ForceNewline)
+  ensures rdLive(recv) ==> (len(result0) == rdLen(recv) && !result1.ForceNewline)
   ensures rdLive(recv) ==> (forall k int {result0[k]} :: rdPad(recv) <= k && k < rdLen(recv) ==> result0[k] == srcByte(recv, rdStart(recv) + k - rdPad(recv)))
   ensures rdLive(recv) ==> (forall k int {result0[k]} :: 0 <= k && k < rdPad(recv) ==> result0[k] == ' ')
   modifies nothing
@@ -472,6 +472,30 @@ iface text.Reader.SetPosition
   ensures rdOK(recv) && rdLine(recv) == arg0
   modifies rdRep, rdLive, rdLine, rdStart, rdStop, rdPad, rdRem
 
+// SkipSpaces / SkipBlankLines: both implementations delegate to the shared helpers below (scan `delegates`),
+// which are verified against these contracts on the interface itself.
+iface text.Reader.SkipSpaces
+  requires rdOK(recv)
+  ensures rdOK(recv) && (result2 <==> rdLive(recv))
+  modifies rdRep, rdLive, rdLine, rdStart, rdStop, rdPad, rdRem
+func skipSpacesReader
+  requires rdOK(r)
+  ensures rdOK(r) && (result2 <==> rdLive(r))
+  modifies rdRep, rdLive, rdLine, rdStart, rdStop, rdPad, rdRem
+  loop 0 inv rdOK(r) && chars >= 0
+  loop 1 inv rdOK(r) && chars >= 0 && line != nil && rdRem(r) >= len(line) - (rangeindex + 1)
+  loop 1 inv (rangeindex + 1 < len(line)) ==> (rdLive(r) && rdLen(r) == len(line) - (rangeindex + 1))
+
+iface text.Reader.SkipBlankLines
+  requires rdOK(recv)
+  ensures rdOK(recv) && (result2 <==> rdLive(recv))
+  modifies rdRep, rdLive, rdLine, rdStart, rdStop, rdPad, rdRem
+func skipBlankLinesReader
+  requires rdOK(r)
+  ensures rdOK(r) && (result2 <==> rdLive(r))
+  modifies rdRep, rdLive, rdLine, rdStart, rdStop, rdPad, rdRem
+  loop 0 inv rdOK(r) && lines >= 0
+
 // ---- *reader under the cursor model ----
 absmacro rdR srcLenOf(x) = len(x.source)
 absmacro rdR srcArrOf(x) = arrof(x.source)
@@ -501,5 +525,5 @@ absmacro rdB rdStop(x) = x.pos.Stop
 absmacro rdB rdPad(x) = x.pos.Padding
 absmacro rdB rdRem(x) = remB(x)
 absmacro rdB rdPosOK(x, l, s, e, p, f) = l >= 0 && ((s != -1 && l < x.segmentsLength) ==>
-  (segs(x)[l].Start <= s && s <= e && e == segs(x)[l].Stop && p >= 0 && (e < x.last ==> s < e)))
+  (segs(x)[l].Start <= s && s <= e && e == segs(x)[l].Stop && p >= 0 && !f && (e < x.last ==> s < e)))
 @*/
